@@ -133,7 +133,9 @@ def judge(wf, name, clock):
         vs.append(("C14.edges", "edge-volume-differs",
                    {"want": want_edges, "got": got_edges}))
     if len(plan.graph.nodes) != len(node_ids):
-        vs.append(("C14.edges", "plan-graph-node-count", {}))
+        vs.append(("C14.edges", "plan-graph-node-count",
+                   {"graph_nodes": len(plan.graph.nodes),
+                    "workflow_nodes": len(node_ids)}))
     preds = {n: set() for n in node_ids}
     succs = {n: set() for n in node_ids}
     for u, v, vol in wf["edges"]:
@@ -150,8 +152,14 @@ def judge(wf, name, clock):
         if dict(t.io or {}) != wio:
             vs.append(("C14.io", "per-edge-volume-map-differs",
                        {"task": t.id, "got": t.io, "want": wio}))
-        gp = {getattr(x, "id", x) for x in plan.get_task_predecessors(t)}
-        gs = {getattr(x, "id", x) for x in plan.get_task_successors(t)}
+        try:
+            gp = {getattr(x, "id", x)
+                  for x in plan.get_task_predecessors(t)}
+            gs = {getattr(x, "id", x) for x in plan.get_task_successors(t)}
+        except Exception as e:
+            vs.append(("C14.queries", "query-raised:%s" % type(e).__name__,
+                       {"task": t.id, "error": repr(e)}))
+            continue
         if gp != wp:
             vs.append(("C14.queries", "predecessor-query-differs",
                        {"task": t.id, "got": sorted(gp),
@@ -169,8 +177,11 @@ def judge(wf, name, clock):
     # converse
     for n in node_ids:
         for m in node_ids:
-            p_in = tobj[m] in set(plan.get_task_predecessors(tobj[n]))
-            s_in = tobj[n] in set(plan.get_task_successors(tobj[m]))
+            try:
+                p_in = tobj[m] in set(plan.get_task_predecessors(tobj[n]))
+                s_in = tobj[n] in set(plan.get_task_successors(tobj[m]))
+            except Exception:
+                continue          # reported above as query-raised
             if p_in != s_in:
                 vs.append(("C14.queries", "queries-not-converse",
                            {"t": tid[n], "p": tid[m]}))
@@ -197,8 +208,6 @@ def run(rep, tier, seed):
                 combos = [(dm, vm, nc) for dm in ("none", "some", "all")
                           for vm in (0, 1)
                           for nc in (("a", 0), ("emu", 7))]
-                if n == 4 and tier != "thorough":
-                    combos = combos[::2]
             for dm, vm, nc in combos:
                 items.append({"engine": "E3", "n": n, "edges": edges,
                               "data": dm, "vol": vm, "name": nc[0],
